@@ -83,6 +83,10 @@ var c05Stretches = []C05Stretch{
 	{Name: "msg body", Pre: "{msg desc=\"d\"}", Unit: "word <b>x</b> {$x} ", Post: "{/msg}", Level: 1},
 	{Name: "directive chain", Pre: "{$x", Unit: "|id", Post: "}", Level: 1},
 	{Name: "directive argument", Pre: "{$x|truncate:", Unit: "1+", Post: "1}", Level: 1},
+	{Name: "dotted namespace name", Pre: "{namespace a", Unit: ".b", Post: "}\n", Level: -1},
+	{Name: "dotted alias name", Pre: "{namespace a}\n{alias a", Unit: ".b", Post: "}\n", Level: -1},
+	{Name: "dotted call target", Pre: "{call a", Unit: ".b", Post: " /}", Level: 1},
+	{Name: "dotted template name", Pre: "{namespace a}\n{template .t", Unit: ".b", Post: "}x{/template}\n", Level: -1},
 	{Name: "nested parentheses", Pre: "{", Unit: "(", Mid: "1", Close: ")", Post: "}", Level: 1},
 	{Name: "nested lists", Pre: "{", Unit: "[", Mid: "1", Close: "]", Post: "}", Level: 1},
 	{Name: "nested if blocks", Unit: "{if $x}", Mid: "y", Close: "{/if}", Level: 1},
